@@ -136,5 +136,5 @@ def plan(tier, seed):
     tasks = []
     for i in range(16 if q else 32):
         prof = ["full", "full", "full", "blobs", "trees", "lengths", "full", "flat"][i % 8]
-        tasks.append(("generated", {"examples": 120 if q else 1500, "profile": prof, "max_packets": 6 if q else 12}))
+        tasks.append(("generated", {"examples": 150 if q else 1500, "profile": prof, "max_packets": 6 if q else 12}))
     return tasks
